@@ -1423,6 +1423,9 @@ func (g Gateway) Delete(ctx context.Context, in *hydrapb.DeleteRequest) (*hydrap
 			// begin the vigil, to prevent closing of the swamp
 			swampInterface.BeginVigil()
 			defer swampInterface.CeaseVigil()
+			if verifhook.Enabled {
+				verifhook.Point("gw.del.vigil", swampRequest.SwampName)
+			}
 
 			sr := &hydrapb.DeleteResponse_SwampDeleteResponse{
 				SwampName: swampRequest.SwampName,
